@@ -108,7 +108,8 @@ ZTEXTS = ['+0300', '-03:00', ' +0300', 'UTC', 'Z', ' GMT', ' UTC', ' GMT+3', ' U
           '-0330', ' -09:30', '-00:45', '+05:45', ' -0230 (NDT)', ' EST', ' EDT', ' BRST', ' BST', ' CHAST', ' NOVST', ' +1245 (CHAST)',
           '+0000', ' -0000', ' +00:00', '', ' CET', ' XYZT', ' +0300 (MSK)', ' -0500 (EST)']
 BASES = ['2003-09-25 10:36:28', '2003-01-25 10:36:28', '2003-10-26 01:30:00', '2003-11-02 01:30:00']
-TZENVS = [None, 'Europe/London', 'America/New_York', 'EST5EDT,M4.1.0,M10.5.0', 'UTC0', 'CHAST-12:45CHADT,M9.5.0/2:45,M4.1.0/3:45']
+TZENVS = [None, 'Europe/London', 'America/New_York', 'EST5EDT,M4.1.0,M10.5.0', 'UTC0', 'CHAST-12:45CHADT,M9.5.0/2:45,M4.1.0/3:45',
+          'UTC0BST,M3.5.0/1,M10.5.0/2']      # a local zone whose standard time is *named* UTC and that has a summer time
 
 
 class _Probe(D.tzinfo):
